@@ -63,6 +63,9 @@ def to_wire(o, layout=None):
     if isinstance(o, list):
         return [to_wire(v) for v in o]
     if isinstance(o, dict):
+        if '__sx_lib_func__' in o:
+            mod, name = o['__sx_lib_func__'].rsplit('.', 1)
+            return {'__t': 'libfunc', 'module': 'xrspatial.' + mod, 'name': name}
         if all(isinstance(k, str) for k in o):
             return {k: to_wire(v) for k, v in o.items()}
         return {'__t': 'dict', 'items': [[to_wire(k), to_wire(v)] for k, v in o.items()]}
